@@ -119,6 +119,33 @@ def programs(tier: str):
     for place in ("spawn", "create"):
         yield {"tree": {"kind": "a", "place": "root", "c": [{"kind": "a", "place": place, "c": []}]}, "cb": "alt", "cancel_enter": 1, "fine": True}
         yield {"tree": {"kind": "a", "place": "root", "c": [{"kind": "a", "place": place, "c": []}]}, "cb": "alt", "cancel_body": 1, "fine": True}
+    if tier == "quick":
+        # 4-node trees with exactly two task-placed nodes (e.g. two late scopes under one parent)
+        for shape in tree_shapes(4):
+            for places in itertools.product(("inline", "spawn", "create"), repeat=3):
+                if sum(1 for p_ in places if p_ != "inline") != 2:
+                    continue
+                labels = [("a", "root")] + [("a", places[i - 1]) for i in range(1, 4)]
+                yield {"tree": _label(shape, labels), "cb": "sync"}
+    # WIDE and DEEP trees (the statement speaks of 5 nodes; bookkeeping that scans / bisects / compacts
+    # the list of nested scopes only shows beyond 3 children): stars with 4..9 children and chains of
+    # 5..8 scopes, one or two nodes task-placed, the others inline
+    for k in (4, 5, 6, 9) if tier == "quick" else (4, 5, 6, 7, 9, 12):
+        for pos in sorted({0, 1, k // 2, k - 1}):
+            for place in ("create", "spawn"):
+                kids = [{"kind": "s" if i % 2 else "a", "place": place if i == pos else "inline", "c": []} for i in range(k)]
+                yield {"tree": {"kind": "a", "place": "root", "c": kids}, "cb": "alt" if pos % 2 else "sync"}
+        if k <= 6:
+            for p1, p2 in ((0, 1), (0, k - 1), (k - 2, k - 1)):
+                kids = [{"kind": "a", "place": "create" if i in (p1, p2) else "inline", "c": []} for i in range(k)]
+                yield {"tree": {"kind": "a", "place": "root", "c": kids}, "cb": "sync"}
+    for d in (5, 6, 8) if tier == "quick" else (5, 6, 8, 10):
+        for pos in sorted({1, 2, d // 2, d - 1}):
+            for place in ("create", "spawn"):
+                node = None
+                for lvl in reversed(range(1, d)):
+                    node = {"kind": "a" if (lvl % 2 or place == "spawn") else "s", "place": place if lvl == pos else "inline", "c": [node] if node else []}
+                yield {"tree": {"kind": "a", "place": "root", "c": [node]}, "cb": "sync"}
     if tier == "thorough":
         from hv.ctxkit import forest_shapes
 
